@@ -104,13 +104,18 @@ pub fn run(stdout: &mut StandardStream, hy_opt: &HyeongOption) -> Result<(), Err
                 err.flush().unwrap();
                 is_running = false;
             } else {
-                state_stack.push(execute::execute_one(
+                let res = execute::execute_one(
                     &mut stdin(),
                     &mut out,
                     &mut err,
                     state_stack.last().unwrap().0.clone(),
                     state_stack.last().unwrap().1,
-                )?);
+                );
+                if res.is_err() {
+                    out.flush().unwrap();
+                    err.flush().unwrap();
+                }
+                state_stack.push(res?);
             }
         } else {
             loop {
@@ -141,13 +146,18 @@ pub fn run(stdout: &mut StandardStream, hy_opt: &HyeongOption) -> Result<(), Err
                             true,
                         )?;
 
-                        state_stack.push(execute::execute_one(
+                        let res = execute::execute_one(
                             &mut stdin(),
                             &mut out,
                             &mut err,
                             state_stack.last().unwrap().0.clone(),
                             state_stack.last().unwrap().1,
-                        )?);
+                        );
+                        if res.is_err() {
+                            out.flush().unwrap();
+                            err.flush().unwrap();
+                        }
+                        state_stack.push(res?);
 
                         out.flush().unwrap();
                         err.flush().unwrap();
@@ -165,13 +175,18 @@ pub fn run(stdout: &mut StandardStream, hy_opt: &HyeongOption) -> Result<(), Err
                     }
 
                     "run" | "r" => {
-                        state_stack.push(execute::execute_one(
+                        let res = execute::execute_one(
                             &mut stdin(),
                             &mut out,
                             &mut err,
                             state_stack.last().unwrap().0.clone(),
                             state_stack.last().unwrap().1,
-                        )?);
+                        );
+                        if res.is_err() {
+                            out.flush().unwrap();
+                            err.flush().unwrap();
+                        }
+                        state_stack.push(res?);
 
                         is_running = true;
                         break;
